@@ -341,6 +341,11 @@ def commitPlain (s : State) : Res :=
                          h := { h with files := setLastUB h.files ub', lastRW := false } },
           out := .ok, written := [f] }
 
+/-- the state in which `IH5MFRecord.commit_patch` calls the base-class commit: two uuids
+drawn, the newest in-memory user block replaced by the copy carrying the extension -/
+def mfPrep (s : State) (ubT : UB) : State :=
+  { s with next := s.next + 2, h := { s.h with files := setLastUB s.h.files ubT } }
+
 /-- `IH5MFRecord.commit_patch`: a fresh manifest (new uuid, new body) is prepared, the
 extension is put into a *copy* of the newest in-memory user block, the base-class commit
 runs; on `ValueError` the old block is restored (nothing but the uuid counter changed),
@@ -351,10 +356,7 @@ def commitMF (s : State) : Res :=
   | none => fail s .indexError
   | some (f, ub) =>
     let mfid : Nat × Nat := (s.next, s.next + 1)
-    let ubT := { ub with ext := some mfid }
-    let s0 : State := { s with next := s.next + 2 }
-    let s1 : State := { s0 with h := { h with files := setLastUB h.files ubT } }
-    let r := commitPlain s1
+    let r := commitPlain (mfPrep s { ub with ext := some mfid })
     match r.out with
     | .ok =>
       let side := manifestFile f
@@ -364,7 +366,7 @@ def commitMF (s : State) : Res :=
         out := .ok,
         created := if existed then [] else [side],
         written := r.written ++ (if existed then [side] else []) }
-    | e => fail s0 e
+    | e => fail { s with next := s.next + 2 } e
 
 def commitPatch (s : State) : Res :=
   if s.h.mfcls then commitMF s else commitPlain s
